@@ -295,16 +295,79 @@ theorem impl_error_admissible (e : Expr) (hm : Spec.modInRange G e = true) (k : 
     obtain ⟨rfl, rfl, rfl⟩ := h
     exact (spec_err_mem G e _ _ _ hs).2
 
-/- Full statement (not proved; one induction away): `Spec.eval G e = .val v → Spec.errSet G e = []`. -/
-/-- … one level of it: an operator on operands without admissible errors whose meaning is a value has
-    no admissible error — the set does not bless errors where there should be a value -/
-theorem value_has_no_admissible_error_partial (o : BinOp) (t : Str) (l r : Expr) (v1 v2 v : Val N)
+/-- one level: an operator on operands without admissible errors whose meaning is a value has no
+    admissible error -/
+theorem errSet_bin_value (o : BinOp) (t : Str) (l r : Expr) (v1 v2 v : Val N)
     (h1 : Spec.eval G l = .val v1) (h2 : Spec.eval G r = .val v2) (hl : Spec.errSet G l = []) (hr : Spec.errSet G r = [])
     (hv : Spec.binSem G o (opName l) (opName r) v1 v2 = .val v) : Spec.errSet G (.bin o t l r) = [] := by
   simp only [Spec.errSet, hl, hr, h1, h2, List.nil_append]
   cases o <;> cases v1 <;> cases v2 <;>
     simp_all [Spec.binSem, Spec.arith, Spec.logic, Spec.member, Spec.compare, ownLeft, ownRight, ownBoth] <;>
     (try (split at hv)) <;> (try (split at hv)) <;> (try split) <;> (try split) <;> simp_all
+
+mutual
+/-- C03 (the admissible set blesses no error where there must be a value): for EVERY tree whose
+    reference evaluation yields a value the set of admissible errors is empty — so with
+    `SPEC["equal"]` accepting any member of `Spec.errSet`, an error is never accepted for an
+    expression that has a value (and, by `impl_error_admissible`, never rejected when it is about an
+    offending operand). -/
+theorem value_has_no_admissible_error : ∀ (e : Expr) (v : Val N), Spec.eval G e = .val v → Spec.errSet G e = []
+  | .atom a, _, _ => by simp [Spec.errSet]
+  | .list its, v, h => by
+    simp only [Spec.eval] at h
+    simp only [Spec.errSet]
+    cases hi : Spec.evalItems G its with
+    | ok vs => exact items_have_no_admissible_error its vs hi
+    | error x => obtain ⟨k, s, p⟩ := x; rw [hi] at h; cases h
+  | .bin o t l r, v, h => by
+    simp only [Spec.eval] at h
+    cases hl : Spec.eval G l with
+    | err k s p => rw [hl] at h; cases h
+    | val v1 =>
+      rw [hl] at h
+      cases hr : Spec.eval G r with
+      | err k s p => rw [hr] at h; cases h
+      | val v2 =>
+        rw [hr] at h
+        exact errSet_bin_value G o t l r v1 v2 v hl hr (value_has_no_admissible_error l v1 hl)
+          (value_has_no_admissible_error r v2 hr) h
+  | .pre q t x, v, h => by
+    simp only [Spec.eval] at h
+    simp only [Spec.errSet]
+    cases hx : Spec.eval G x with
+    | err k s p => rw [hx] at h; cases h
+    | val vx =>
+      rw [hx] at h
+      simp [value_has_no_admissible_error x vx hx, h]
+theorem items_have_no_admissible_error : ∀ (its : Items) (vs : Vals N), Spec.evalItems G its = .ok vs →
+    Spec.errSetItems G its = []
+  | .nil, _, _ => by simp [Spec.errSetItems]
+  | .cons e rest, vs, h => by
+    simp only [Spec.evalItems] at h
+    simp only [Spec.errSetItems]
+    cases he : Spec.eval G e with
+    | err k s p => rw [he] at h; cases h
+    | val v =>
+      rw [he] at h
+      cases hr : Spec.evalItems G rest with
+      | error x => rw [hr] at h; cases h
+      | ok vs' =>
+        simp [value_has_no_admissible_error e v he, items_have_no_admissible_error rest vs' hr]
+end
+
+/-- C03 (exactly the failing trees have admissible errors): the admissible set is empty if and
+    only if the reference evaluation yields a value. -/
+theorem errSet_empty_iff_value (e : Expr) : Spec.errSet G e = [] ↔ ∃ v, Spec.eval G e = .val v := by
+  constructor
+  · intro h
+    cases hs : Spec.eval G e with
+    | val v => exact ⟨v, rfl⟩
+    | err k s p =>
+      have := (spec_err_mem G e k s p hs).1
+      rw [h] at this
+      cases this
+  · rintro ⟨v, hv⟩
+    exact value_has_no_admissible_error G e v hv
 
 def BinOp.arith : BinOp → Bool
   | .plus | .minus | .times | .div | .divint | .modint => true
@@ -685,6 +748,12 @@ def isErr {N : Type} (k : ErrKind) (name : Str) : Out N → Bool
 def isBoolVal {N : Type} (b : Bool) : Out N → Bool
   | .val (.bool b') => b = b'
   | _ => false
+
+/-- non-vacuity of `value_has_no_admissible_error` / `errSet_empty_iff_value`: `1 + 2` has a value and
+    no admissible error; `"a" + true` has two admissible errors (one per offending operand) -/
+example : Spec.errSet toy (.bin .plus [43] (.atom (.num [49] 1)) (.atom (.num [50] 2))) = [] := by decide
+example : Spec.errSet toy (.bin .plus [43] (.atom (.str [97])) (.atom (.tru [116]))) =
+    [(.notANumber, [97], some 0), (.notANumber, [116], some 1)] := by decide
 
 /-- `"a" + 1` : NotANumber naming `a` (hypotheses of `wrong_kind_left_arith` are satisfiable) -/
 example : isErr .notANumber [97] (Impl.eval toy (.bin .plus [43] (.atom (.str [97])) (.atom (.num [49] 1)))) = true := by
